@@ -63,6 +63,14 @@ def sweep_cases():
         for v in sweeps.variants("p" + tp)[:6]:
             if v not in ("q" + tp, "r"):
                 add("rewire", base, {v: N})
+    # synonym lists in priority order (not alphabetical), every member promoted in turn
+    for syn in (["x9", "x1", "x5"], ["x5", "x9", "x1"], ["xb", "xa"], ["x2", "x10", "x1"]):
+        base = [mrec("a", "x", ["a2", "a1"], syn), mrec("b", "y", [], ["y2", "y1"])]
+        for v in syn + ["x"]:
+            add("remap_uri", base, {"x": v})
+            add("remap_uri", base, {syn[0]: v}) if v != syn[0] else None
+            add("rewire", base, {"a": v})
+            add("rewire", base, {"a1": v, "b": "y1"})
     for x, y in list(sweeps.TWINS) + list(sweeps.URL_TWINS):
         X, Y = ("u" + x, "u" + y) if not x.startswith(("http", "urn")) else (x, y)
         b1 = [mrec("a", X, [], [Y]), mrec("b", "w/")]
